@@ -273,14 +273,20 @@ class C11(Property):
             world.indeterminate(dst)
         else:
             world.oracle()
-            if world.fs.get(dst) != before:
-                raise Violation("refusal_damaged_target", "%s:refusal" % op,
-                                "%s raised %r but %s changed although the call failed" % (op, out.exc, dst))
             if must_refuse:
+                # told not to overwrite: the refusal must leave the existing file as it was
+                if world.fs.get(dst) != before:
+                    raise Violation("refusal_damaged_target", "%s:refusal" % op,
+                                    "%s(overwrite=False) raised %r but the existing %s changed" % (op, out.exc, dst))
                 world.probes["refused_overwrite"] += 1
             elif exp_src is not None:
                 raise Violation("convert_raised", "%s:%s" % (op, out.describe()),
                                 "fault-free %s of %s (acknowledged content) raised %r\n%s" % (op, src, out.exc, out.tb))
+            else:
+                # a source of unknown content (foreign bytes, a torn file) may make the conversion fail half-way,
+                # after the output was opened: nothing is stated about that, the output is simply in doubt
+                world.indeterminate(dst)
+                world.probes["conversion_of_unknown_source_failed"] += 1
         return [dst]
 
     # ------------------------------------------------------------------ shrinking
